@@ -69,3 +69,11 @@ def cconc(case):
     cnt, bad = concrete_complex_step_cases(nd)
     return dict(reproduced=bool(bad), failing=bad[:3], cases=cnt,
                 statement='complex-step methods: an element evaluated inside an array agrees with the same element evaluated alone within the error estimates')
+
+
+@reg('C08.econc')
+def econc(case):
+    import numdifftools as nd
+    from ndvc.concrete import elementwise_default_step_cases
+    cnt, bad = elementwise_default_step_cases(nd)
+    return dict(reproduced=bool(bad), failing=bad[:3], cases=cnt, statement='element in an array == the same element alone (value, error estimate, final step), default steps')
